@@ -99,7 +99,8 @@ theorem save_writes_image_state (s : St) (hw : WF s) (im : Img) (hi : s.img = so
 example : ∃ s im, WF s ∧ s.img = some im ∧ im.mapped = true :=
   ⟨(step false ⟨fs0 fun _ => .f32, none⟩ (.load .aImg true)).2, _, (step_safe _ _ (fs0_wf _) rfl).2.1, rfl, by decide⟩
 
-/-- for the three classes of the original alphabet the class written is the class by extension alone -/
+/-- for the three classes of the original alphabet the class written is the class by extension alone (finite case
+    check over the conversion table `outCls`; the table itself is tied to the source by `generated_outCls_agree`) -/
 theorem save_class_by_extension (c : Cls) (hc : c = .nifti1 ∨ c = .pair ∨ c = .mgh) (q : Path) :
     outCls c q.ext = q.cls := by
   rcases hc with h | h | h <;> subst h <;> cases q <;> rfl
@@ -122,10 +123,32 @@ example : ∃ (close : Nat → Nat → Bool) (x : XF), (∀ a, close a a = true)
     (reconcile close .nifti1 5 x).sc = 2 :=
   ⟨closeId, ⟨3, 7, 2, 7⟩, fun a => by simp [closeId], by decide, by decide⟩
 
-/-- NIfTI `get_best_affine` precedence: a set sform masks the qform; the qform counts only with `sform_code = 0` -/
+/-- NIfTI `get_best_affine` precedence: a set sform masks the qform; the qform counts only with `sform_code = 0`.
+    (Definitional glue: restates `XF.best` case by case so that the precedence the other theorems rely on is visible
+    and audited; the correspondence streams `hdraffine`/`exh3x` compare it with `Nifti1Header.get_best_affine`.) -/
 theorem best_affine_precedence (x : XF) :
     (x.sc ≠ 0 → x.best = x.sa) ∧ (x.sc = 0 → x.qc ≠ 0 → x.best = x.qa) ∧ (x.sc = 0 → x.qc = 0 → x.best = baseAff) := by
   refine ⟨fun h => by simp [XF.best, h], fun h1 h2 => by simp [XF.best, h1, h2], fun h1 h2 => by simp [XF.best, h1, h2]⟩
+
+/-- the affine a fresh load of the written file decodes, with `update_header` deciding by an arbitrary closeness
+    predicate (the executable model is the instance `closeId`) -/
+def outAffC (close : Nat → Nat → Bool) (im : Img) (q : Path) : Nat :=
+  if outCls im.cls q.ext = .spm2 then im.aff
+  else (reconcile close (outCls im.cls q.ext) im.aff (outHeader im q).2.2.2).best
+
+/-- EVERY save, converting or not, whatever the header's affine fields hold, for ANY reflexive closeness predicate:
+    the affine of the written file is close to the affine the image has at that save (SPM2: equal — `.mat` file) -/
+theorem saved_affine_close (close : Nat → Nat → Bool) (hrefl : ∀ a, close a a = true) (im : Img) (q : Path) :
+    close im.aff (outAffC close im q) = true ∧ outAffC closeId im q = outAff im q := by
+  refine ⟨?_, rfl⟩
+  unfold outAffC
+  by_cases hc : outCls im.cls q.ext = .spm2
+  · rw [if_pos hc]; exact hrefl _
+  · rw [if_neg hc]; exact reconcile_best_close close hrefl hc _ _
+
+example : ∃ (close : Nat → Nat → Bool) (im : Img) (q : Path), (∀ a, close a a = true) ∧ outAffC close im q ≠ im.aff :=
+  ⟨fun a b => a / 10 == b / 10, { (default : Img) with cls := .nifti1, aff := 10, xf := ⟨2, 11, 0, 11⟩ }, .aNii,
+   fun a => by simp, by decide⟩
 
 /-- any number of direct header edits -/
 def hdrEdits (s : St) : List Nat → St
@@ -349,7 +372,8 @@ example : ∃ s im, WF s ∧ s.img = some im ∧ im.mapped = true ∧ im.src = .
   ⟨(step false ⟨fs0 fun _ => .i16, none⟩ (.load .sImg true)).2, _, (step_safe _ _ (fs0_wf _) rfl).2.1, rfl,
    by decide, rfl, rfl⟩
 
-/-- CURRENT logic on the same histories: the self-overwrite succeeds and writes the image state. -/
+/-- CURRENT logic on the same histories: the self-overwrite succeeds and writes the image state.
+    (Corollary of `save_writes_image_state` at `q = im.src`, kept as the positive twin of the theorem above.) -/
 theorem current_self_overwrite_ok (s : St) (hw : WF s) (im : Img) (hi : s.img = some im) :
     (step false s (.save im.src)).1 = .saved (savedContent im im.src) :=
   (save_writes_image_state s hw im hi im.src true).1
@@ -472,5 +496,25 @@ theorem generated_outCls_agree (c : Cls) (e : Ext) :
     clsCode (outCls c e) = genOutCls (clsCode c) (extCode e) ∧ c.validExt e = genValid (clsCode c) (extCode e) ∧
     c.hasToBytes = Gen.hasToBytes.contains (clsCode c) := by
   cases c <;> cases e <;> decide
+
+/-- `get_best_affine` interpreted over the GENERATED source order of its tests -/
+def genBest (x : XF) : Nat :=
+  let code := fun (f : Nat) => if f = 0 then x.sc else if f = 1 then x.qc else 0
+  let aff := fun (g : Nat) => if g = 0 then x.sa else if g = 1 then x.qa else baseAff
+  match Gen.bestAffineOrder.find? (fun r => code r.1 != 0) with
+  | some r => aff r.2
+  | none => aff Gen.bestAffineFallback
+
+/-- the model's `get_best_affine` precedence and the transform codes `_affine2header` writes are the ones of the
+    source (AST of `Nifti1Header.get_best_affine` / `Nifti1Pair._affine2header`) -/
+theorem generated_transform_rules_agree (x : XF) (a : Nat) (c : Cls) (hc : c.isNifti = true) :
+    x.best = genBest x ∧ affine2header c a x = ⟨Gen.affine2headerCodes.1, a, Gen.affine2headerCodes.2, a⟩ := by
+  constructor
+  · obtain ⟨sc, sa, qc, qa⟩ := x
+    rcases sc with _ | sc <;> rcases qc with _ | qc <;>
+      simp [XF.best, genBest, Gen.bestAffineOrder, Gen.bestAffineFallback, List.find?]
+  · cases c <;> first | rfl | simp [Cls.isNifti] at hc
+
+example : ∃ x : XF, x.sc ≠ 0 ∧ x.qc ≠ 0 ∧ x.sa ≠ x.qa ∧ genBest x = x.sa := ⟨⟨3, 12, 2, 13⟩, by decide⟩
 
 end Nb.C09
